@@ -33,6 +33,10 @@ for sid in ids:
             res.update({"detected": None, "reason": "patch does not apply to the current tree: " + r.stderr[-300:]})
         else:
             t0 = time.time()
+            # evidence/<pid>.json describes /repo itself: keep it, and store the run against the
+            # seeded tree next to the seed instead
+            ev = os.path.join(V, "evidence", pid + ".json")
+            keep = open(ev).read() if os.path.exists(ev) else None
             try:
                 p = subprocess.run([os.path.join(V, "check"), pid, "--tier", tier], cwd=V, capture_output=True, text=True, timeout=3 * 3600)
                 out = p.stdout
@@ -43,6 +47,10 @@ for sid in ids:
                             "detected": p.returncode == 1})
             finally:
                 subprocess.run(["git", "-C", "/repo", "checkout", "--", "."], check=True)
+                if os.path.exists(ev):
+                    os.replace(ev, os.path.join(d, "evidence_with_seed.json"))
+                if keep is not None:
+                    open(ev, "w").write(keep)
     json.dump(res, open(os.path.join(d, "detection.json"), "w"), indent=1)
     print(sid, pid, "detected=%s" % res.get("detected"), "exit=%s" % res.get("exit"), res.get("reason", ""), flush=True)
     for l in res.get("failed_obligations", [])[:4]:
